@@ -81,7 +81,7 @@ class C01(Check):
             'the low and of the high half of the debug id on two bases, (d) all ordered sequences of <=3 decodes over a '
             'pool of 8 records that share sub-fields (result must equal the solo decode), (e) all ordered triples over a 9-record pool '
             'reached through the container parsers (a v2 dump; v3 dumps for every composition of the 3 records into 1..3 chunks; two '
-            'v2 parses alive at once under every interleaving). Oracle: independent byte-slicing '
+            'v2 parses alive at once under every interleaving; records beginning with the v2 magic / a v3 tag; inter-chunk fillers of 4060..4099 bytes). Oracle: independent byte-slicing '
             'decoder, the algebraic clauses, rebuild of the first 52 bytes, single-bit non-interference. Distinct by '
             'construction per sub-space; non-trivial = the record differs from its base (or, for histories, has length >=2).')
     assumptions = ('2^512 records are not enumerable: a special case keyed on a specific value outside the enumerated shapes '
@@ -173,7 +173,9 @@ class C01(Check):
             from mc import build as B
             from mc.space import compositions, interleavings
             from pykdebugparser.kd_buf_parser import KdBufParser
-            P = [r for r in pool() if r[0] != 0] + [bytes(range(1, 65)), bytes(range(64, 0, -1))]
+            P = [r for r in pool() if r[0] != 0] + [bytes(range(1, 65)), bytes(range(64, 0, -1)),
+                                                     bytes([0x00, 0x02, 0xaa, 0x55]) + bytes(range(4, 64)),    # begins with the v2 magic
+                                                     bytes([0x00, 0x1e, 0, 0, 0, 0, 0, 0]) + bytes(range(8, 64))]  # begins with the v3 events tag
             names = ['timestamp', 'data', 'values', 'tid', 'debugid', 'eventid', 'func_qualifier']
 
             def events(blob):
@@ -182,7 +184,11 @@ class C01(Check):
             for seq in itertools.product(range(len(P)), repeat=3):
                 recs = [P[i] for i in seq]
                 exp = [ref_decode(r) for r in recs]
-                blobs = [('v2', B.v2([(1, 2, 'a')], 0, recs))]
+                blobs = [('v2', B.v2([(1, 2, 'a')], 0, recs))] if recs[0][0] != 0 else []   # a first record starting with 0 is K1 (C02)
+                if seq[0] == seq[1] == 0:
+                    # chunks separated by fillers that put the next events tag at / across a 4096-byte block boundary
+                    for L in range(4060, 4100):
+                        blobs.append((f'v3gap{L}', B.v3([(1, 2, 'a')], [recs[:1], recs[1:]], gap=bytes((i * 7) % 250 + 1 for i in range(L)))))
                 for k in (1, 2, 3):
                     for comp in compositions(3, k):
                         chunks, i = [], 0
